@@ -5,6 +5,7 @@ import (
 	"fmt"
 	"math/rand/v2"
 	"reflect"
+	"time"
 	"unsafe"
 
 	"verifharness/core"
@@ -100,6 +101,15 @@ func c08Plants() []plant {
 		}},
 		{"recursive-invalid", true, func(r *rand.Rand) reflect.Type {
 			return types.InvalidRecursive[r.IntN(len(types.InvalidRecursive))]
+		}},
+		// valid or not depending on the configuration: a map whose values are written in the repeated-field
+		// form (ProtoCompatibleArrays) has no place for them in a map entry, behind any number of pointers
+		{"map-of-repeated-slices", false, func(r *rand.Rand) reflect.Type {
+			el := []reflect.Type{T([]string(nil)), reflect.SliceOf(leaf), T([][]byte(nil)), reflect.SliceOf(reflect.PointerTo(leaf)), T([]time.Time(nil))}[r.IntN(5)]
+			for i := r.IntN(4); i > 0; i-- {
+				el = reflect.PointerTo(el)
+			}
+			return reflect.MapOf([]reflect.Type{tString, tInt, T(int32(0))}[r.IntN(3)], el)
 		}},
 		// valid neighbours: must be accepted and must work
 		{"valid-neighbour", false, func(r *rand.Rand) reflect.Type {
@@ -255,7 +265,7 @@ func c08Case(c *core.Ctx, idx int) {
 			rec.Violation("codec-panic", "CodecForType panicked instead of returning an error "+desc+"\n"+pn, map[string]any{"type": typeString(typ)})
 			return
 		}
-		if pl.mustReject {
+		if pl.mustReject || (pl.name == "map-of-repeated-slices" && why != "") {
 			if why == "" {
 				rec.Violation("model-error", "the model accepts a definition planted as invalid "+desc, nil)
 				return
